@@ -907,8 +907,13 @@ class VmapBatchHandler:
         new_config = self.config.with_sample_shape(new_sample_shape)
         result = create_sample_primitive(new_config)(*vector_args)
 
-        # Return with appropriate output axes
-        out_axes = (0 if n or axis_size else None,)
+        # Return with appropriate output axes: with mapped parameters the site's own
+        # sample_shape dimensions come first and the lane axis follows them; with no
+        # mapped parameter the lane axis was prepended to the sample shape.
+        if n:
+            out_axes = (len(self.config.sample_shape),)
+        else:
+            out_axes = (0 if axis_size else None,)
         return (result,), out_axes
 
     def _compute_outer_batch_dim(self, n, axis_size):
